@@ -578,6 +578,7 @@ def d7_sleep_list(facts, rep):
                 rep.ob('D7', 'K5', fn, '%s is accessed under the serializer mutex (line %s)' % (node['n'], node['ln']),
                        bool(before.get(pos, frozenset()) & locks), '%s touched outside my_mutex' % node['n'], ln=node['ln'],
                        key_extra=str(node['ln']) + node['n'])
+    serializer_request_word(facts, rep)
     for name in ('enable_mandatory_concurrency', 'disable_mandatory_concurrency'):
         for fn in facts.get(R1 + 'thread_request_serializer_proxy::' + name):
             up = calls_named(fn, ('upgrade_to_writer',))
@@ -719,3 +720,65 @@ def bounded_queue_skipped_tickets(facts, rep, clause):
                    'other forever (path: %s)' % bad, ln=co['ln'], key_extra='skip|%s|%s' % (fn.p, co['ln']))
     if n < 2:
         raise AnalysisBroken('bounded queue: head ticket claims not found (%d)' % n)
+
+
+def serializer_request_word(facts, rep):
+    """thread_request_serializer::update(delta) packs the pending worker-request deltas into the low bits of one atomic word
+    (biased by a base B so that negative sums fit, masked by M when the aggregating thread takes them) and counts the pending
+    updates in the bits above.  A single delta is any value of its parameter type - an arena with N slots requests N-1 workers
+    at once - so the field must hold B + delta for every such value: B >= 2^(W-1) and M >= 2B-1 for a W-bit signed delta.
+    A delta that does not fit carries into the update counter, the decoded request is garbage (negative), no worker is
+    requested or woken and the work enqueued into that arena never runs.  Likewise the old value of the word decides who
+    aggregates: it must be compared in full width."""
+    for fn in facts.get(R1 + 'thread_request_serializer::update'):
+        adds = [(p, o) for p, o in atomics_on(fn, 'my_pending_delta', kinds=('rmw',)) if o['name'] in ('fetch_add', 'operator+=')]
+        takes = [(p, o) for p, o in atomics_on(fn, 'my_pending_delta', kinds=('rmw',)) if o['name'] == 'exchange']
+        if not adds or not takes:
+            raise AnalysisBroken('thread_request_serializer::update: fetch_add / exchange on my_pending_delta not found')
+        params = set(nd.get('v') for nd in fn.nodes if nd.get('k') == 'var' and 'param' in nd)
+        W = None
+        for p_, o in adds:
+            for x in fn.subtree(o.get('val', -1)):
+                nd = fn.nodes[x]
+                if nd.get('k') == 'cast' and nd.get('from') and fn.n(fn.strip(nd['sub'])).get('k') == 'var' and \
+                        fn.n(fn.strip(nd['sub'])).get('v') in params:
+                    W = nd['from'][0]
+                elif nd.get('k') == 'var' and nd.get('v') in params and W is None:
+                    W = 64 if 'long' in (nd.get('ty') or '') else 32
+        if W is None:
+            raise AnalysisBroken('thread_request_serializer::update: the delta parameter does not feed the fetch_add')
+        # decode: (exchange(...) & M) - B
+        pm = fn.parent_map()
+        M = B = None
+        for p_, o in takes:
+            par = pm.get(o['s'])
+            for _ in range(4):
+                if par is None:
+                    break
+                pn = fn.nodes[par]
+                if pn.get('k') == 'binop' and pn['op'] == '&' and M is None:
+                    M = fn.cv(pn['r']) if fn.cv(pn['r']) is not None else fn.cv(pn['l'])
+                if pn.get('k') == 'binop' and pn['op'] == '-' and B is None:
+                    B = fn.cv(pn['r'])
+                par = pm.get(par)
+        if M is None or B is None:
+            raise AnalysisBroken('thread_request_serializer::update: mask / base of the decoded delta not found')
+        need = 1 << (W - 1)
+        rep.ob('D7', 'K14', fn, 'the pending-request field holds base + delta for every value of the %d-bit delta parameter' % W,
+               B >= need and M >= 2 * B - 1,
+               'base = %d, mask = %d: a single request of more than %d workers (task_arena(n) with n > %d) overflows into the update counter, the '
+               'decoded request is negative, no worker is requested and work enqueued into that arena never runs' % (B, M, B - 1, B),
+               key_extra='field')
+        bad = []
+        for p_, o in adds:
+            par = pm.get(o['s'])
+            for _ in range(3):
+                if par is None:
+                    break
+                pn = fn.nodes[par]
+                if pn.get('k') == 'cast' and pn.get('from') and pn.get('to') and pn['to'][0] < pn['from'][0]:
+                    bad.append('line %s: %d -> %d bits' % (pn.get('ln'), pn['from'][0], pn['to'][0]))
+                par = pm.get(par)
+        rep.ob('D7', 'K14', fn, 'the previous value of the request word is examined in full width', not bad,
+               'the word is truncated before it is compared with the base (%s): once the update counter reaches the truncated width a thread '
+               'aggregates although another one still holds the critical section' % '; '.join(bad), key_extra='prev')
